@@ -286,7 +286,11 @@ impl Directive {
                     if let Some(Operand::S(include)) = values.get(0) {
                         let path = PathBuf::from(include);
                         let path = if path.is_relative() {
-                            let mut current_path = current_path.parent().unwrap().to_path_buf();
+                            // inside a macro body there is no current file, hence no parent directory
+                            let mut current_path = current_path
+                                .parent()
+                                .map(|parent| parent.to_path_buf())
+                                .unwrap_or_default();
                             current_path.push(path);
                             current_path
                         } else {
